@@ -283,6 +283,16 @@ impl<'a> Compiler<'a> {
         }
     }
 
+    /// The body of a loop is a statement: whatever its cards left on the stack above the locals (the
+    /// value of a call that nobody uses, ...) is dropped at the end of every iteration. Otherwise
+    /// the stack grows with every iteration, and the locals of the body are not on top when the
+    /// scope ends
+    fn drop_statement_values(&mut self) {
+        let locals = self.locals[self.function_id].len() as u32;
+        self.push_instruction(Instruction::ClearStack);
+        write_to_vec(locals, &mut self.program.bytecode);
+    }
+
     /// add a local variable
     ///
     /// return its index
@@ -593,6 +603,7 @@ impl<'a> Compiler<'a> {
                     c.current_index.push_subindex(1);
                     c.process_card(body)?;
                     c.current_index.pop_subindex();
+                    c.drop_statement_values();
                     c.scope_end();
                     // return to the foreach instruction
                     c.push_instruction(Instruction::Goto);
@@ -618,6 +629,7 @@ impl<'a> Compiler<'a> {
                     c.current_index.push_subindex(1);
                     c.process_card(body)?;
                     c.current_index.pop_subindex();
+                    c.drop_statement_values();
                     c.scope_end();
                     c.push_instruction(Instruction::Goto);
                     write_to_vec(block_begin, &mut c.program.bytecode);
@@ -656,6 +668,7 @@ impl<'a> Compiler<'a> {
                     c.current_index.push_subindex(1);
                     c.process_card(repeat)?;
                     c.current_index.pop_subindex();
+                    c.drop_statement_values();
                     c.scope_end();
                     // i = i + 1
                     c.process_card(&Card {
